@@ -941,6 +941,10 @@ func SpecialNames(p *load.Program, rel string) *report.RuleResult {
 		key := "group:" + map[string]string{"": "class-like", "const": "const"}[g]
 		if len(missing) == 0 && len(extra) == 0 {
 			res.OK(key, p.Pos(fd.Pos()), "ResolveName", fmt.Sprintf("exactly %s are left unqualified", strings.Join(oracle[g], ", ")))
+		} else if len(got[g]) == 0 {
+			// nothing was recognised: the names are tested in a form this reading does not know (or not at all);
+			// resolve-spec decides what is computed, and without it this stays undecided, which fails
+			res.Unknown(key, p.Pos(fd.Pos()), "ResolveName", "undecided:idiom: no comparison of a single-part name with the special names was recognised in ResolveName")
 		} else {
 			res.Bad(key, p.Pos(fd.Pos()), "ResolveName", fmt.Sprintf("special names differ from PHP's: missing %v, extra %v", missing, extra))
 		}
